@@ -543,6 +543,11 @@ class Gen:
             vals = [rng.choice(oth + [x + 3 * step, x - 2 * step]) for _ in range(rng.randint(3, 4))]
             if rng.random() < 0.6:
                 vals[rng.randrange(len(vals))] = x
+            if rng.random() < 0.35 and all(Fraction(v_).denominator == 1 and v_ != -1 for v_ in vals):
+                # "missing" listed among the values (first, in the middle or last): the key matches a missing element or any listed value
+                vals = [int(v_) for v_ in vals]
+                vals.insert(rng.choice([0, 0, 1, len(vals)]), -1)
+                return self.fmt_key("I", d, vals)
             return self.fmt_num_key(d, vals, t)
         if c < 0.95:                                       # inclusive range, bounds on and off the value
             lo = x + step * rng.choice([0, 0, -1, -2, 1, -10])
